@@ -435,6 +435,9 @@ func cmdCheck(args []string) int {
 			if strings.HasPrefix(v.Label, "panic@") {
 				tries = 3
 			}
+			if strings.HasPrefix(v.Label, "hang@") || strings.HasPrefix(v.Label, "stack@") || v.Label == "deadlock" {
+				tries = 1
+			}
 			many := cases
 			for k := 1; k < tries; k++ {
 				many = append(many, cases[0])
@@ -449,8 +452,9 @@ func cmdCheck(args []string) int {
 				if strings.HasPrefix(v.Label, "panic@") {
 					confirmed = r.Status == "panic"
 					detail = firstLine(r.Panic)
-				} else if v.Label == "deadlock" {
-					confirmed = r.Status == "deadlock"
+				} else if v.Label == "deadlock" || strings.HasPrefix(v.Label, "hang@") || strings.HasPrefix(v.Label, "stack@") {
+					confirmed = r.Status == "deadlock" || r.Status == "panic"
+					detail = firstLine(r.Panic)
 				} else {
 					for _, f := range r.Failed {
 						if f == v.Label {
